@@ -112,6 +112,8 @@ def _faults():
         ("operand-count", "mov #{V}", lambda v: True, 0, None),
         ("unknown-insn", "frob {V}", lambda v: True, 0, None),
         ("user-error", ".error stop {V}", lambda v: True, 0, None),
+        ("dangling-comma", "W6: 1, {V} , ]", lambda v: True, ("find", " , ]", 1), None),
+        ("dangling-comma-tab", "W6: 1, {V}\t, ]", lambda v: True, ("find", "\t, ]", 1), None),
     ]
 
 
@@ -120,9 +122,12 @@ def _faults():
 LITERAL_CULPRIT = ['abs', 'ascii-byte', 'blkb', 'byte', 'dword', 'imm', 'index', 'reg-index', 'repeat-count', 'word', 'word-2nd']
 
 
-def culprit_offset(fault, culprit, v, route):
+def culprit_offset(fault, culprit, v, route, stmt_text=None):
     if culprit is None:
         return None
+    if isinstance(culprit, (tuple, list)):
+        # ("find", needle, delta): position of a marker inside the rendered statement
+        return stmt_text.index(culprit[1]) + culprit[2]
     if fault in LITERAL_CULPRIT and route == "text" and v < 0:
         return culprit + 1
     return culprit
@@ -187,7 +192,7 @@ def h_diag(params, vals, ctx):
             if not (0 <= p1 <= p2 <= n):
                 return False
     first = errs[0][2][0]
-    culprit = culprit_offset(params["fault"], culprit, v, ctx.route)
+    culprit = culprit_offset(params["fault"], culprit, v, ctx.route, render(stmt, order, vals, ctx.route))
     if culprit is not None:
         if not (first[1] == stmt_at + culprit):
             return False
@@ -195,6 +200,54 @@ def h_diag(params, vals, ctx):
         if not (stmt_at <= first[1] <= stmt_at + len(stmt)):
             return False
     return True
+
+
+def h_crossfile(params, vals, ctx):
+    """Diagnostics whose spans lie in two different files: each span names the file that holds its text, in the order
+    culprit first, 'previously declared here' second -- whatever the file names are."""
+    v = vals["V"]
+    require(-256 < v < 256)
+    first_name, second_name = params["names"]
+    kind = params["kind"]
+    f1 = os.path.join(AUX, first_name)
+    f2 = os.path.join(AUX, second_name)
+    if kind == "duplicate-export":
+        t1 = "nop\nshared:: .byte {V}\n.even\n"
+        t2 = "\tnop\n  shared:: nop\n"
+        culprit = (f2, t2.index("shared"))
+        other = (f1, t1.index("shared"))
+        ident = "duplicate-symbol"
+    elif kind == "duplicate-extern":
+        t1 = ".byte {V}\n.even\ndup == 5\n"
+        t2 = "nop\n.extern dup\ndup = 6\n"
+        culprit = (f2, t2.index("dup"))
+        other = (f1, t1.index("dup"))
+        ident = "duplicate-symbol"
+    else:  # sob to a label of the other file that lies further on: second span is the label definition
+        t1 = ".byte {V}\n.even\nsob r1, fwd\n"
+        t2 = "nop\nfwd:: nop\n"
+        culprit = (f1, t1.index("sob"))
+        other = (f2, t2.index("fwd"))
+        ident = "branch-out-of-bounds"
+    o = assemble([(f1, t1), (f2, t2)], vals, route=ctx.route, order=["V"])
+    ctx.observe_outcome(o)
+    ctx.reach(o.status == "failed")
+    if o.status != "failed":
+        return False
+    hits = [d for d in o.diags if d[1] == ident]
+    if not hits:
+        return False
+    spans = hits[0][2]
+    if len(spans) != 2 or spans[0] is None or spans[1] is None:
+        return False
+    if ctx.route == "text" and v < 0:
+        pass  # '{V}' stands before both culprits only in file 1 line 1: offsets after it shift with the literal's length
+    lit_shift = len(render("{V}", ["V"], vals, ctx.route)) - len("{V}")
+    def pos_in(f, p):
+        return p + (lit_shift if f == f1 and p > t1.index("{V}") else 0)
+    ok = spans[0][0] == culprit[0] and spans[0][2] == culprit[0] and spans[0][1] == pos_in(*culprit)
+    ok = ok and spans[1][0] == other[0] and spans[1][2] == other[0] and spans[1][1] == pos_in(*other)
+    return ok
 
 
 def h_bare(params, vals, ctx):
@@ -233,7 +286,7 @@ def h_bare(params, vals, ctx):
         if not m:
             return False
         text_here = render(body, ["V"], {"V": 0}, "text")  # the prefix up to the culprit does not depend on V
-        line, col = ref_position(text_here, len(prefix) + (culprit_offset(params["fault"], culprit, v, ctx.route) or 0))
+        line, col = ref_position(text_here, len(prefix) + (culprit_offset(params["fault"], culprit, v, ctx.route, render(stmt, ["V"], {"V": 0}, "text")) or 0))
         return (int(m.group(1)), int(m.group(2))) == (line, col)
 
 
@@ -251,8 +304,12 @@ def obligations(tier, seed):
     for k, (fid, pi, pl) in enumerate(combos):
         obs.append(Ob(oid=f"span/{fid}/p{pi}/{pl}", harness=P + "h_diag", params={"fault": fid, "prefix": PREFIXES[pi], "placement": pl, "tag": f"T{k}"},
                       vars={"V": "int"}, timeout=300, per_path=90, note=(PREFIXES[pi] + dict((f[0], f[1]) for f in _faults())[fid]).replace("\n", " / ")))
+    for kind in ("duplicate-export", "duplicate-extern", "sob-forward"):
+        for names in (("a_first.mac", "z_second.mac"), ("z_first.mac", "a_second.mac"), ("m.mac", "lib.mac")):
+            obs.append(Ob(oid=f"crossfile/{kind}/{names[0]}+{names[1]}", harness=P + "h_crossfile", params={"kind": kind, "names": list(names)},
+                          vars={"V": "int"}, timeout=300))
     for f in _faults():
-        if f[3] is None:
+        if f[3] is None or isinstance(f[3], tuple):
             continue
         for pi in ([0, 3, 5] if tier == "quick" else range(len(PREFIXES))):
             obs.append(Ob(oid=f"bare/{f[0]}/p{pi}", harness=P + "h_bare", params={"fault": f[0], "prefix": PREFIXES[pi]}, vars={"V": "int"}, timeout=300, per_path=90))
